@@ -146,6 +146,9 @@ func (fr *Frame) callFunction(x *ssa.Call, callee *ssa.Function, args []*Val, bi
 			return
 		}
 	}
+	if rc := callee.Signature.Recv(); rc != nil && len(args) > 0 && args[0].K == VPtr && v.prog.inRepo(callee) {
+		fr.oblig(x, "nil.recv", Not(Eq(args[0].Ref, IntLit(0))), "method "+name+" called on a nil receiver")
+	}
 	c := v.lib.Contracts[name]
 	forceInline := fr.inlineSet != nil && fr.inlineSet[name]
 	if c != nil && !c.Inline && !forceInline {
@@ -327,6 +330,12 @@ func (fr *Frame) havocTarget(env *Env, m Clause, x ssa.Instruction) (err error) 
 			panic(r)
 		}
 	}()
+	havocCellsK := func(ks []string, ref, off *Term) {
+		for i, k := range ks {
+			fr.checkWrite(x, ref, Add(off, IntLit(int64(i))), IntLit(1))
+			fr.st.storeCell(k, ref, Add(off, IntLit(int64(i))), Fresh("hv", kindSort(k)))
+		}
+	}
 	havocCells := func(t types.Type, ref, off *Term) {
 		for i, k := range cellKinds(t) {
 			fr.checkWrite(x, ref, Add(off, IntLit(int64(i))), IntLit(1))
@@ -370,10 +379,11 @@ func (fr *Frame) havocTarget(env *Env, m Clause, x ssa.Instruction) (err error) 
 	if s, ok := m.E.(*ESel); ok {
 		base := env.eval(s.X)
 		if base.K == CVal && base.V.K == VPtr {
-			if st, ok := base.V.T.Underlying().(*types.Pointer).Elem().Underlying().(*types.Struct); ok {
+			nt := base.V.T.Underlying().(*types.Pointer).Elem()
+			if st, ok := nt.Underlying().(*types.Struct); ok {
 				for i := 0; i < st.NumFields(); i++ {
 					if st.Field(i).Name() == s.Name {
-						havocCells(st.Field(i).Type(), base.V.Ref, Add(base.V.Off, IntLit(fieldOffset(st, i))))
+						havocCellsK(fieldKinds(nt, st, i), base.V.Ref, Add(base.V.Off, IntLit(fieldOffset(st, i))))
 						return nil
 					}
 				}
